@@ -210,3 +210,12 @@ Definition oam_tick_dma (rd : N -> N) (o : oam) : res oam :=
 
 (* the 160 bytes, for dumps *)
 Definition oam_bytes (o : oam) : list N := read_run (o_mem o) 0 160.
+
+(* ---- running the DMA engine for n machine cycles ----
+   [rd t] is the bus-read function valid during tick number t (the source may change between ticks);
+   t0 is the number of the first tick executed. *)
+Definition dma_step (rd : N -> N -> N) (st : N * res oam) : N * res oam :=
+  (N.succ (fst st), do o <- snd st; oam_tick_dma (rd (fst st)) o).
+
+Definition dma_run (rd : N -> N -> N) (t0 n : N) (o : oam) : res oam :=
+  snd (N.iter n (dma_step rd) (t0, Ok o)).
